@@ -648,14 +648,27 @@ def check_C04(tier, nproc=None):
         S5 += [[b'-', (6, D), b'e-340'], [(6, D), b'e312'], [b'0.', (5, D), b'e-333'], [b'-', (1, 'digit19'), (4, D), b'E+308'], [(2, D), b'e-20000'], [b'-00.00E-1']]
     for t in S5:
         c.add(Job('vH_FP_slow', [('tmpl', 'd', t)], pkg=FP, weight=300, opts={'slowpath': True, 'nsamples': 2}))
+    # tier 5c: decimal.set on its own: the decimal it leaves denotes the literal (exactly, or inside the last kept
+    # digit's bracket with trunc set), for short literals of every shape and for literals whose digits cross the
+    # 800-digit buffer before the point, after the point, and with an exponent that brings the value back in range
+    Z = b'0'
+    S6 = [[b'-', (2, D), b'.', (3, D), b'e-5'], [(3, D), b'E+17'], [b'0.00', (3, D), b'e3'], [b'-', (4, D)], [(1, D), b'.', (1, D), b'e-307'],
+          [b'1' + Z * 797, (4, D), b'e-801'], [b'1' + Z * 797, (3, D), b'.', (2, D)], [b'0.', (1, 'digit19'), Z * 796, (4, D), b'e5'],
+          [b'-', (1, 'digit19'), Z * 798, (2, D), b'.5e-790']]
+    if tier != 'quick':
+        S6 += [[(1, 'digit19'), b'9' * 790, (12, D)], [b'0.000', (1, 'digit19'), b'3' * 795, (6, D), b'E+20'], [b'7' * 799, (1, D), b'.', (1, D), b'1e-799'],
+               [(6, D), b'.', (6, D), b'e42'], [b'-0.', (8, D), b'e-11'], [b'9' * 805, b'e-', b'512']]
+    for t in S6:
+        c.add(Job('vH_FP_set', [('tmpl', 'd', t)], pkg=FP, weight=400, opts={'scanvalue': True, 'nsamples': 2, 'ex.ite_merging': False}))
     c.bounds = {'scanner_all_strings': N, 'scanner_templates': [_tmplstr(t) for t in T],
                 'left_shift_unit': 'leftShift(a, k) for k in %s on every normalised decimal of %s digits: result = value*2^k exactly, normalised, not truncated' % (('1..60' if tier != 'quick' else ks), nds),
                 'glue_templates': [_tmplstr(t) for t in G],
                 'right_shift_unit': 'rightShift(a, k) for k in %s on every normalised decimal of %s digits (k > 12: one digit)' % (rks, rnds),
                 'fallback_early_exit_templates': [_tmplstr(t) for t in S5],
+                'decimal_set_templates': [_tmplstr(t) for t in S6],
                 'exact_path': 'atof64exact for every decimal exponent -26..41, both signs, every 64-bit mantissa',
                 'eisel_lemire': 'every one of the 696 table rows x every 64-bit mantissa with 0 leading zeros; leading-zero counts %s on %s rows; negative sign on the same rows' % (extra_clz, 'every 58th' if tier == 'quick' else 'all')}
-    c.must_reach = ['C04.scan-returned', 'C04.scan-ok', 'C04.el-returned', 'C04.el-ok', 'C04.exact-returned', 'C04.exact-ok', 'C04.glue-returned', 'C04.glue-ok', 'C04.api-number', 'C04.shift-done', 'C04.slow-returned']
+    c.must_reach = ['C04.scan-returned', 'C04.scan-ok', 'C04.el-returned', 'C04.el-ok', 'C04.exact-returned', 'C04.exact-ok', 'C04.glue-returned', 'C04.glue-ok', 'C04.api-number', 'C04.shift-done', 'C04.slow-returned', 'C04.set-returned']
     _std(c, ['R-ROUND (engine/gosym/fpspec.py): nearest binary64 with ties to even, as linear integer inequalities per exponent field; validated natively with math/big in replays',
              'math/bits.Mul64 and LeadingZeros64 are exact term-level intrinsics',
              'tier 4: eiselLemire64 replaced by its contract (free ok; when ok the result is rnd(man*10^exp), tier 3); atof64exact runs for real in the exact-rational model; f2 == fUp implies every value between the two bounds rounds to f2 (monotonicity of rounding, meta-argument)',
